@@ -501,7 +501,7 @@ func (s *store) cold() map[string]any {
 	out := map[string]any{}
 	for _, c := range chanNames {
 		m := kit.Canon(s.projectChan(c)).(map[string]any)
-		out[c] = map[string]any{"m": m, "ret": s.retention(c), "ex": s.exact(c, m)}
+		out[c] = map[string]any{"m": m, "ret": s.retention(c), "ex": s.exact(c, m), "eh": s.history(c)}
 	}
 	return kit.Canon(out).(map[string]any)
 }
@@ -529,6 +529,9 @@ func clauses(cold map[string]any) string {
 		}
 		if cp := kit.Map(m, "cp"); kit.Bool(cp, "has") && kit.Int(cp, "hw") > leo {
 			return fmt.Sprintf("%s: committed watermark %d above the recovered log end %d", c, kit.Int(cp, "hw"), leo)
+		}
+		if d := historyClause(c, ch, leo); d != "" {
+			return d
 		}
 	}
 	return ""
